@@ -95,6 +95,7 @@ type Ctx struct {
 	curClause *Clause
 	directStores map[interface{}]bool // cells a loop assigns directly (as opposed to element-wise)
 	callCovered map[string]bool
+	blockCovers map[*ssa.BasicBlock][]*Query
 	callCovers  []*CallCover
 }
 
